@@ -49,7 +49,7 @@ class TimedDH(object):
         return (b + a) / 2.0
 
 
-def _run(case, mirror):
+def _run(case, mirror, fee_obj=None):
     q = load()
     t0 = cal.ts6(case['t_submit'])
     t1 = cal.ts6(case['t_update'])
@@ -64,7 +64,8 @@ def _run(case, mirror):
         table[(t0, a)] = (bid * 1.37, ask * 1.37)
         other[a] = (bid * 0.61, ask * 0.61)
     dh = TimedDH(table, other)
-    b = q.SimulatedBroker(t0, q.SimulatedExchange(t0), dh, initial_funds=0.0, fee_model=kit.fee_model(case['fee']))
+    b = q.SimulatedBroker(t0, q.SimulatedExchange(t0), dh, initial_funds=0.0,
+                          fee_model=fee_obj if fee_obj is not None else kit.fee_model(case['fee']))
     pids = sorted(set(o[4] for o in orders))
     log = []
     for pid in pids:
@@ -124,8 +125,9 @@ def _run(case, mirror):
 
 
 def run_case(case):
-    a1, rate = _run(case, False)
-    a2, _ = _run(case, True)
+    fee_obj = kit.fee_model(case['fee'])          # one fee-model object serves both brokers
+    a1, rate = _run(case, False, fee_obj)
+    a2, _ = _run(case, True, fee_obj)
     c1 = {(a, n, side): c for a, n, c, x, side in a1}
     c2 = {(a, n, side): c for a, n, c, x, side in a2}
     for k in c1:
